@@ -230,15 +230,22 @@ def small_histories(pool, length):
     return itertools.product(alphabet, repeat=length)
 
 
-def random_history(rng, pool, length, ttl_choices):
+def random_history(rng, pool, length, ttl_choices, epoch=0, mix=False):
+    """`epoch`: the clock starts there (realistic UNIX times in seconds, or in milliseconds); `mix`: some
+    explicit timestamps are a thousand times larger (a feed stamping in another unit: to the tracker they are
+    just numbers, larger ones are later)"""
     mmsis = sorted(pool)
-    ops, now = [], 0
+    ops, now = [], epoch
+    if epoch:
+        ops.append('t:%d' % now)
     for _ in range(length):
         r = rng.random()
         if r < 0.55:
             m = rng.choice(mmsis)
             line = rng.choice(pool[m])
             ts = rng.choice(['N', str(max(0, now + rng.randint(-6, 2))), str(now)])
+            if mix and ts != 'N' and rng.random() < 0.4:
+                ts = str(int(ts) * 1000)
             ops.append('u:%s:%s' % (line.hex(), ts))
         elif r < 0.65:
             ops.append('p:%d' % rng.choice(mmsis))
@@ -280,8 +287,9 @@ def run_tracker_checks(ctx, pid):
     for i in range(300 if ctx.tier == 'quick' else 6000):
         ordered = rng.random() < 0.5
         ttl = rng.choice([None, 2, 5, 10])
+        epoch = rng.choice([0, 0, 0, 1673259290, 1673259290000])
         ops = random_history(rng, pool2, rng.choice([20, 60, 200]) if ctx.tier == 'thorough' else rng.choice([20, 60]),
-                             ['N', '2', '5', '10'])
+                             ['N', '2', '5', '10'], epoch=epoch, mix=(epoch == 1673259290 and rng.random() < 0.5))
         ops += ['n:%d' % k for k in (0, 1, 2, 3, 7)]
         lines.append('tracker %d %s %s' % (ordered, 'N' if ttl is None else ttl, ' '.join(ops)))
         meta.append((ordered, ttl, ops))
